@@ -526,4 +526,95 @@ theorem pushSuffixLabels_eq (w : List UInt8) (sfx : DName) :
     · have : ¬ w.length + (l.length + 1 + wireLength sfx) ≤ 255 := by omega
       simp [h1, this]
 
+theorem pushSuffixOffsets_eq (offs : List Nat) (base : Nat) (os : List Nat)
+    (h1 : ∀ o ∈ os, o + base ≤ 255) (h2 : offs.length + os.length ≤ 128) :
+    pushSuffixOffsets offs base os = .ok (offs ++ os.map (· + base)) := by
+  obtain ⟨_, _, c3⟩ := consts
+  induction os generalizing offs with
+  | nil => simp [pushSuffixOffsets]
+  | cons o os ih =>
+    have ho := h1 o (by simp)
+    simp only [List.length_cons] at h2
+    rw [pushSuffixOffsets, if_neg (by omega), c3, if_neg (by omega)]
+    rw [ih (offs ++ [o + base]) (fun x hx => h1 x (List.mem_cons_of_mem _ hx)) (by simp; omega)]
+    simp
+
+theorem body_take_length_le (n : DName) (i : Nat) : (body (n.take i)).length ≤ (body n).length := by
+  conv => rhs; rw [← List.take_append_drop i n, body_append]
+  simp
+
+theorem offsetsList_append (a b : DName) :
+    offsetsList (a ++ b) = (offsetsList a).dropLast ++ (offsetsList b).map (· + (body a).length) := by
+  unfold offsetsList
+  have e : (a ++ b).length + 1 = a.length + (b.length + 1) := by simp; omega
+  rw [e, List.range_add, List.map_append, List.range_succ (n := a.length), List.map_append]
+  simp only [List.map_cons, List.map_nil, List.dropLast_concat, List.map_map]
+  congr 1
+  · apply List.map_congr_left
+    intro i hi
+    simp at hi
+    rw [List.take_append_of_le_length (by omega)]
+  · apply List.map_congr_left
+    intro j _
+    simp only [Function.comp]
+    rw [List.take_length_add_append, body_append]
+    simp; omega
+
+theorem finishWithSuffix_stateOf (done : DName) (cur : Label) (hinv : InvDC done cur) (sfx : DName)
+    (hs : ValidName sfx) :
+    (stateOf done cur).finishWithSuffix (toWire sfx) =
+      if cur = [] then .err .NullNonTerminal
+      else if wireLength (done ++ [cur] ++ sfx) > 255 then .err .NameTooLong
+      else .ok ⟨toWire (done ++ [cur] ++ sfx), offsetsList (done ++ [cur] ++ sfx)⟩ := by
+  have hq : (stateOf done cur).isFullyQualified = decide (cur = []) := by
+    cases cur <;> simp [Builder.isFullyQualified, stateOf]
+  unfold Builder.finishWithSuffix
+  rw [hq]
+  by_cases hc : cur = []
+  · simp [hc]
+  · have hpos : 0 < cur.length := List.length_pos_iff.mpr hc
+    simp only [hc, decide_false, Bool.false_eq_true, ↓reduceIte]
+    have hup : (stateOf done cur).updateLabelLen = some (body (done ++ [cur])) := by
+      unfold Builder.updateLabelLen
+      have : (stateOf done cur).labelStart < (stateOf done cur).wire.length := by simp [stateOf]
+      rw [if_pos this]
+      simp only [stateOf]
+      rw [List.set_append_right _ _ (by omega)]
+      simp
+    rw [hup]
+    simp only
+    rw [labelsOf_toWire sfx hs.1, pushSuffixLabels_eq, labelOffsets_toWire sfx hs.1]
+    have hwl : (body (done ++ [cur])).length + wireLength sfx = wireLength (done ++ [cur] ++ sfx) := by
+      rw [wireLength_append]
+    rw [hwl]
+    by_cases hsz : wireLength (done ++ [cur] ++ sfx) > 255
+    · have : ¬ wireLength (done ++ [cur] ++ sfx) ≤ 255 := by omega
+      rw [if_neg this, if_pos hsz]
+    · have hle : wireLength (done ++ [cur] ++ sfx) ≤ 255 := by omega
+      rw [if_pos hle, if_neg hsz]
+      have hok : LabelsOK (done ++ [cur] ++ sfx) := by
+        refine LabelsOK_append.mpr ⟨LabelsOK_append.mpr ⟨hinv.ok, ?_⟩, hs.1⟩
+        intro l hl; simp at hl; subst hl; exact ⟨hpos, hinv.cl⟩
+      have h2 := two_mul_length_le_body _ hok
+      have hbl : (body (done ++ [cur] ++ sfx)).length + 1 = wireLength (done ++ [cur] ++ sfx) := by
+        rw [← toWire_length, toWire_eq]; simp only [List.length_append, List.length_cons, List.length_nil]
+      have hB : (body (done ++ [cur] ++ sfx)).length = (body done).length + (cur.length + 1) + (body sfx).length := by
+        simp only [body_append, List.length_append, body_cons, body_nil, List.length_cons, List.append_nil]
+      have hL : (done ++ [cur] ++ sfx).length = done.length + 1 + sfx.length := by simp; omega
+      have hW : (body (done ++ [cur])).length = (body done).length + (cur.length + 1) := by
+        simp only [body_append, List.length_append, body_cons, body_nil, List.length_cons, List.append_nil]
+      simp only
+      rw [pushSuffixOffsets_eq]
+      · simp only [stateOf]
+        rw [offsetsList_append (done ++ [cur]) sfx, offsetsList_snoc, List.dropLast_concat, toWire_eq, toWire_eq]
+        simp only [body_append, List.append_assoc]
+      · intro o ho
+        simp only [offsetsList, List.mem_map, List.mem_range] at ho
+        obtain ⟨i, _, rfl⟩ := ho
+        have := body_take_length_le sfx i
+        rw [hW]
+        omega
+      · simp only [stateOf, offsetsList, List.length_map, List.length_range]
+        omega
+
 end QV.Name
